@@ -124,8 +124,11 @@ MisfitF(r, f) ==
   IF r.mis # None \/ ~MisfitOK(r, f) THEN <<r, f>>
   ELSE LET c == IF r.comp THEN <<r, f>> ELSE ComputeAllF(r, f)
            r1 == c[1]
-           \* weights are computed only if none are stored
-           wn == IF r1.w = None THEN r1.ob ELSE r1.w
+           \* weights are always derived from the current standard
+           \* deviation (fix 7cf6fdc); deviation StoredWeightsReused: only
+           \* if none are stored
+           wn == IF r1.w = None \/ "StoredWeightsReused" \notin Deviations
+                 THEN r1.ob ELSE r1.w
            rp == DP(SynProv(r1), r1.ob)
        IN <<[r1 EXCEPT !.w = wn, !.res = rp,
                        !.mis = IF wn = r1.ob THEN rp ELSE Mixed],
@@ -135,6 +138,14 @@ MisfitF(r, f) ==
 AllE(r, f) == \A p \in Pairs : EContent(r, f, p) \notin {None, Gone}
 EProv(r, f) == IF \E m \in 0..MaxModel : \A p \in Pairs : EContent(r, f, p) = m
                THEN EContent(r, f, CHOOSE p \in Pairs : TRUE) ELSE Mixed
+
+(* gradient and jvec need the electric fields: entries removed by           *)
+(* clean('keepresults') are recomputed (all pairs; fix in /repo); deviation *)
+(* FieldsNotRecomputed: the code before that fix                            *)
+NeedE(r) == \E p \in Pairs : r.ef[p] = None
+EnsureE(r, f) ==
+  IF "FieldsNotRecomputed" \in Deviations \/ ~NeedE(r) \/ ~ComputeOK(r, f, Pairs)
+  THEN <<r, f>> ELSE ComputeAllF(r, f)
 
 (* gradient property: <<record, files, kind, prov>> *)
 GradientF(r, f) ==
@@ -147,7 +158,8 @@ GradientF(r, f) ==
            drv == IF r1.res = Vec \/ r1.w = r1.ob THEN r1.res ELSE Mixed
            g == <<r1.mv, drv>>
        IN <<[r1 EXCEPT !.grad = g], c[2], "value", g>>
-  ELSE LET c == MisfitF(r, f)
+  ELSE LET c0 == MisfitF(r, f)
+           c == EnsureE(c0[1], c0[2])
            r1 == c[1]
            f1 == c[2]
        IN IF ~AllE(r1, f1)
@@ -168,7 +180,8 @@ GradientF(r, f) ==
 JvecF(r, f) ==
   IF Layered THEN <<r, f, "error", None>> ELSE      \* NotImplementedError
   IF ~MisfitOK(r, f) THEN <<r, f, "error", None>> ELSE
-  LET c == MisfitF(r, f)
+  LET c0 == MisfitF(r, f)
+      c == EnsureE(c0[1], c0[2])
       r1 == c[1]
   IN IF ~AllE(r1, c[2])
      THEN \* inputs are collected pair by pair; each collected pair sets
@@ -388,6 +401,12 @@ CopyIndependent ==
 (* forward solves use tol_forward, back-propagation / J v use tol_gradient: *)
 (* holds by construction of ComputeF/GradientF/JvecF; what is checked is    *)
 (* that a copy never inherits the gradient tolerance                        *)
+(* a fresh simulation always delivers gradient and J v: so does a used one  *)
+(* (in memory, 3-D; file mode: unless the hand-over files were removed by   *)
+(* another object, the known finding)                                       *)
+SensAvailable ==
+  (~FileMode /\ ~Layered /\ last.op \in {"gradient", "jvec"}) => last.kind = "value"
+
 TolRestored ==
   /\ (last.op \in {"copy", "file"}) => (S[1].tol = "fwd" /\ S[2].tol = "fwd")
   /\ (last.op = "dict") => S[last.obj].tol = "fwd"
